@@ -25,8 +25,10 @@ import (
 var PerturbShare = 0
 
 var (
-	perturbSleepers atomic.Int64
-	perturbForeign  atomic.Int64 // sleepers stranded in abandoned bubbles
+	// curSleepers counts the goroutines of the bubble being run that sleep at a perturbation point. It belongs to
+	// one installation of the hook: a sleeper stranded in an abandoned bubble (whose clock a goroutine waiting for a
+	// mutex has frozen) keeps its own, old counter and cannot disturb later bubbles.
+	curSleepers atomic.Pointer[atomic.Int64]
 	perturbMu       sync.Mutex
 	perturbCases    int
 	perturbSleeps   int64
@@ -70,6 +72,8 @@ func installPerturb(caseID string) func() {
 	order := fnv.New64a()
 	var sleeps, yields int64
 	local := map[string]int64{}
+	sleepers := new(atomic.Int64)
+	curSleepers.Store(sleepers)
 	http2.VerifSetPointHook(func(site string) {
 		k := n.Add(1)
 		h := mix64(seed ^ mix64(k) ^ hash64(site))
@@ -87,13 +91,14 @@ func installPerturb(caseID string) func() {
 		default:
 			atomic.AddInt64(&sleeps, 1)
 			d := time.Duration(1+(h>>8)%50000) * time.Nanosecond
-			perturbSleepers.Add(1)
+			sleepers.Add(1)
 			time.Sleep(d)
-			perturbSleepers.Add(-1)
+			sleepers.Add(-1)
 		}
 	})
 	return func() {
 		http2.VerifSetPointHook(nil)
+		curSleepers.Store(nil)
 		omu.Lock()
 		sig := order.Sum64()
 		omu.Unlock()
@@ -169,23 +174,10 @@ func RunBubble(t *testing.T, caseID string, watchdog time.Duration, f func()) Ca
 // Wait lets virtual time pass until no such sleeper is left (bounded, in case a sleeper belongs to an
 // abandoned bubble whose clock no longer moves).
 func Wait() {
-	same, last := 0, int64(-1)
 	for {
 		synctest.Wait()
-		n := perturbSleepers.Load() - perturbForeign.Load()
-		if n <= 0 {
-			return
-		}
-		// A sleeper of an abandoned bubble (its clock is frozen by a goroutine waiting for a mutex) never wakes up:
-		// when the count has not moved although this bubble's clock has gone far past the longest sleep, the
-		// remaining sleepers are not ours and are discounted from now on.
-		if n == last {
-			same++
-		} else {
-			same, last = 0, n
-		}
-		if same >= 40 {
-			perturbForeign.Add(n)
+		c := curSleepers.Load()
+		if c == nil || c.Load() <= 0 {
 			return
 		}
 		time.Sleep(60 * time.Microsecond)
